@@ -3,6 +3,7 @@ package main
 import (
 	"fmt"
 	"go/token"
+	"reflect"
 	"strings"
 
 	"golang.org/x/tools/go/ssa"
@@ -53,7 +54,7 @@ func (c *Ctx) dom(rule, construct string, a, b ssa.Instruction, why string) bool
 
 // underFact asserts that ins executes only on the edge where cond text has the given truth.
 func (c *Ctx) underFact(rule, construct string, ins ssa.Instruction, match func(string) bool, truth bool, why string) bool {
-	if ins == nil {
+	if ins == nil || reflect.ValueOf(ins).IsNil() {
 		c.ob(rule, construct, "", false, why+" — site not found")
 		return false
 	}
